@@ -153,6 +153,11 @@ def on_field_read(eng, k, ref, field, v):
     if inner[0] != 'ref':
         return
     arr = eng.st.heap[(k.name, field)]
+    seen = eng.st.__dict__.setdefault('ofr_seen', set())
+    ck = (arr.get_id(), ref.t.get_id())
+    if ck in seen:
+        return
+    seen.add(ck)
     base = arr
     while z3.is_app(base) and base.decl().kind() == z3.Z3_OP_STORE:
         base = base.arg(0)
